@@ -4,7 +4,8 @@ the fuel is never exhausted — it always stops on a machine that is idle and ha
 (2) Every state of a row — unfinished, or finished while a batch-mate is still running — offers an
 action; a finished row is offered exactly the wait action.  (3) `done` is absorbing.  (4) Every step
 of an unfinished row strictly advances the clock `(time_idx, sub_time_idx)` lexicographically; with
-positive durations `time_idx` never exceeds the total work `D`, hence at most `(D+1)·M·S` steps.
+`time_idx` never exceeds the total work `D` (longest durations, a 0 counted as 1) — for all durations
+≥ 0 — hence at most `(D+1)·M·S` steps.
 
 Scope (see the unit's notes): states up to and including the step at which the whole batch is
 finished.  After that step the stored mask is stale (`_update_step_state` is skipped); it still
@@ -90,16 +91,16 @@ theorem clock_increases (i : Inst) (h : WF i) {s : State} (hr : Reach envM i s) 
   omega
 
 
-/-- (4b) **Time bound**: with positive durations the clock of an unfinished row never exceeds the
-total work `D = Σ_job Σ_stage (longest duration of the job in that stage)`. -/
-theorem time_le_work (i : Inst) (h : WF i) (hp : DurPos i) {s : State} (hr : Reach envM i s)
+/-- (4b) **Time bound**: the clock of an unfinished row never exceeds the
+total work `D = Σ_job Σ_stage max(1, longest duration of the job in that stage)` — zero durations included. -/
+theorem time_le_work (i : Inst) (h : WF i) {s : State} (hr : Reach envM i s)
     (hd : s.done = false) : s.time ≤ totalWork i := by
-  have := ((live_prog_of_reach i h hp hr).2 hd).pot
+  have := ((live_prog_of_reach i h hr).2 hd).pot.1
   unfold phi at this; omega
 
-theorem pos_lt_bound (i : Inst) (h : WF i) (hp : DurPos i) {s : State} (hr : Reach envM i s)
+theorem pos_lt_bound (i : Inst) (h : WF i) {s : State} (hr : Reach envM i s)
     (hd : s.done = false) : pos i s < stepBound i := by
-  have h1 := time_le_work i h hp hr hd
+  have h1 := time_le_work i h hr hd
   have h2 := (live_of_reach i h hr).core.sub_lt
   unfold pos stepBound
   rw [Nat.succ_mul]
@@ -111,14 +112,14 @@ def mu (i : Inst) (s : State) : Nat := if s.done then 0 else stepBound i - pos i
 
 /-- (4c) **Step bound** (row of a batch, and hence any batch): an episode is finished after at most
 `(D+1)·M·S` steps; the `J·S` scheduling steps are among them, the rest are waits. -/
-theorem steps_le (i : Inst) (h : WF i) (hp : DurPos i) {as : List Nat} {s : State}
+theorem steps_le (i : Inst) (h : WF i) {as : List Nat} {s : State}
     (hr : RunND envM i (envM.reset i) as s) : as.length ≤ stepBound i := by
   have key := steps_le_of_measure (e := envM) (i := i) (mu i) (fun s => Reach envM i s)
     (fun s a ⟨bs, hb⟩ ha hm => ⟨bs ++ [a], hb.snoc ha hm⟩)
     (fun s a hre hd ha hm => by
       have hd0 : s.done = false := hd
       have hm0 : s.mask a = true := hm
-      have hpl := pos_lt_bound i h hp hre hd0
+      have hpl := pos_lt_bound i h hre hd0
       show mu i (stepM i s a) < mu i s
       unfold mu
       rw [hd0]
@@ -128,7 +129,7 @@ theorem steps_le (i : Inst) (h : WF i) (hp : DurPos i) {as : List Nat} {s : Stat
         have hre' : Reach envM i (stepM i s a) := by
           obtain ⟨bs, hb⟩ := hre; exact ⟨bs ++ [a], hb.snoc ha hm⟩
         have h1 := clock_increases i h hre a ha hm0 hd'
-        have h2 := pos_lt_bound i h hp hre' hd'
+        have h2 := pos_lt_bound i h hre' hd'
         simp; omega)
     hr ⟨[], Run.nil _⟩
   have h0 : mu i (envM.reset i) ≤ stepBound i := by
@@ -167,23 +168,32 @@ theorem solo_to_mates (i : Inst) (h : WF i) : ∀ {as : List Nat} {s s' : State}
           rw [hdone] at hd''; cases hd''
 
 /-- (4d) **Step bound, instance stepped alone.** -/
-theorem steps_le_solo (i : Inst) (h : WF i) (hp : DurPos i) {as : List Nat} {s : State}
+theorem steps_le_solo (i : Inst) (h : WF i) {as : List Nat} {s : State}
     (hr : RunND env i (env.reset i) as s) : as.length ≤ stepBound i := by
   obtain ⟨_, hr'⟩ := solo_to_mates i h (live_reset i h) hr
-  exact steps_le i h hp hr'
+  exact steps_le i h hr'
 
 /-- Scope remark made precise: after the step that finishes the whole batch the stored mask is stale —
 it still offers the job scheduled last, and taking it would un-finish the row. -/
-def one : Inst := ⟨1, 1, 1, fun _ _ => 1, fun p => p⟩
+def one : Inst := ⟨1, 1, 1, fun _ _ => 1, fun p => p, true⟩
 theorem stale_mask_after_all_done :
     (step one (reset one) 0).done = true ∧ (step one (reset one) 0).mask 0 = true ∧
     (apply one (step one (reset one) 0) 0).done = false := by decide
 
-/-- Non-vacuity: `WF`, `DurPos` hold for `one`, whose one-step episode finishes within the bound. -/
+/-- Non-vacuity: `WF` holds for `one`, whose one-step episode finishes within the bound. -/
 example : WF one := ⟨by decide, by decide, by decide, fun p hp => hp, fun j m _ _ => by simp [one]⟩
-example : DurPos one := fun j m _ _ => by simp [one]
 example : RunND envM one (envM.reset one) [0] (stepM one (reset one) 0) :=
   RunND.cons (by decide) (by decide) (by decide) (RunND.nil _)
 example : (stepM one (reset one) 0).done = true ∧ (stepM one (reset one) 0).mask 1 = true := by decide
+
+/-- Non-vacuity of the bound for zero durations: 2 jobs of duration 0 on one machine take two time units
+(the clock wraps with no machine busy); `D = 2`, bound `(2+1)·1 = 3`. -/
+def zero2 : Inst := ⟨1, 1, 2, fun _ _ => 0, fun p => p, true⟩
+example : WF zero2 := ⟨by decide, by decide, by decide, fun p hp => hp, fun j m _ _ => by simp [zero2]⟩
+example : stepBound zero2 = 3 := by decide
+example : RunND envM zero2 (envM.reset zero2) [0, 1] (exec envM zero2 (envM.reset zero2) [0, 1]) :=
+  RunND.cons (by decide) (by decide) (by decide) (RunND.cons (by decide) (by decide) (by decide) (RunND.nil _))
+example : (exec envM zero2 (envM.reset zero2) [0]).time = 1 ∧
+    (exec envM zero2 (envM.reset zero2) [0, 1]).done = true := by decide
 
 end Rl4co.Ffsp
